@@ -145,6 +145,7 @@ structure MuxOK (n : MuxNode) : Prop where
   wf : GroupsWF n.groupCount n.groupSize n.children
   ids : ∀ c ∈ n.children, (∀ g ∈ c.gids, 0 ≤ g ∧ g < n.groupCount) ∧ c.gids.Pairwise (· < ·) ∧
       (c.gids.length : Int) < n.groupCount ∧ 0 < c.size
+  noMux : ∀ c ∈ n.children, c.isMux = false
   tight : ∃ c ∈ n.children, c.rel + c.size = n.groupSize
   names : (n.children.map (·.name)).Nodup
 
@@ -157,7 +158,8 @@ theorem calcValue_ge_two (w : Int) (h1 : 1 ≤ w) (h2 : w ≤ 62) : 2 ≤ calcVa
 
 theorem muxOK_of (n : MuxNode) (h : MuxExpressible n) (hn : (n.children.map (·.name)).Nodup) : MuxOK n := by
   obtain ⟨h1, h2, h3, h4, h5, h6, h7⟩ := h
-  refine ⟨h1, h2, h3, ?_, h4, ?_, h6, h7, hn⟩
+  refine ⟨h1, h2, h3, ?_, h4, ?_, fun c hc => ⟨(h6 c hc).1, (h6 c hc).2.1, (h6 c hc).2.2.1, (h6 c hc).2.2.2.1⟩,
+    fun c hc => (h6 c hc).2.2.2.2, h7, hn⟩
   · rw [h3]; exact calcValue_ge_two _ h1 h2
   · intro k hk
     apply h5 k
